@@ -55,6 +55,9 @@ var c13OrderPool = []vfIP{
 	{Class: "db80", Addr: "2001:db80::1/64"},
 	{Class: "low", Addr: "::1:0:0:0:1/64"},
 	{Class: "ula-ff", Addr: "fd00:0:0:ff::1/64"},
+	// link-local unicast is fe80::/10, not only fe80::/64: never advertised
+	{Class: "linklocal-subnet1", Addr: "fe80:0:0:1::1/64"},
+	{Class: "linklocal-top", Addr: "febf:ffff:ffff:ffff::1/64"},
 	{Class: "ula-100", Addr: "fd00:0:0:100::1/64"},
 }
 
@@ -305,7 +308,7 @@ func c13Nontrivial(c c13Case) bool {
 func TestVerifC13(t *testing.T) {
 	r := ev.Begin("C13", "enum")
 	defer r.End(t)
-	r.Rule = "[every successful build is repeated on the same plugin value and onto an RA that already carries an MTU option and prefix options with the base addresses of the interface /64s (at /56 and /64): same result, earlier options untouched] address lists = all subsets (size<=K) of a 13-address pool (GUA/ULA/link-local/IPv4, /48 /64 /128, every exclusion flag, several hosts per /64), each in all permutations, plus each list with one element duplicated, x 3 stanza variants, + all subsets (size<=4) in all permutations of a 9-address pool of eligible /64s whose textual and numeric orders differ + failing source + source failing transiently (EINTR/EAGAIN, bare and wrapped) 1..5 times in a row before answering; non-trivial = >=1 eligible address and (an excluded address, a shared /64 or >=2 distinct /64s); distinct = distinct ordered list x stanza"
+	r.Rule = "[every successful build is repeated on the same plugin value and onto an RA that already carries an MTU option and prefix options with the base addresses of the interface /64s (at /56 and /64): same result, earlier options untouched] address lists = all subsets (size<=K) of a 13-address pool (GUA/ULA/link-local/IPv4, /48 /64 /128, every exclusion flag, several hosts per /64), each in all permutations, plus each list with one element duplicated, x 3 stanza variants, + all subsets (size<=4) in all permutations of an 11-address pool of eligible /64s whose textual and numeric orders differ and two link-local addresses outside fe80::/64 + failing source + source failing transiently (EINTR/EAGAIN, bare and wrapped) 1..5 times in a row before answering; non-trivial = >=1 eligible address and (an excluded address, a shared /64 or >=2 distinct /64s); distinct = distinct ordered list x stanza"
 	r.Assumptions = []string{"address source replaced by an injected function (Prefix.Addrs); rtnetlink decoding not covered"}
 
 	if r.Replay != nil {
@@ -356,7 +359,7 @@ func TestVerifC13(t *testing.T) {
 		}
 		return true
 	})
-	// Ordering pool: eligible /64s only, whose textual forms (hextets of 1-4 hex digits,
+	// Ordering pool: eligible /64s (and two link-local addresses outside fe80::/64), whose textual forms (hextets of 1-4 hex digits,
 	// "::" compression at different places, letters vs digits) order differently from
 	// their numeric values; all subsets of <=4 in all permutations.
 	enum.Subsets(len(c13OrderPool), 4, func(ix []int) bool {
